@@ -518,6 +518,7 @@ type T struct {
 	refDraws []any
 	mu       sync.RWMutex
 	failed   stopTest
+	parent   *T // set for T passed to Custom generator function
 }
 
 func newT(tb tb, s bitStream, tbLog bool, rawLog *log.Logger, refDraws ...any) *T {
@@ -778,6 +779,9 @@ func (t *T) fail(now bool, msg string) {
 	defer t.mu.Unlock()
 
 	t.failed = stopTest(msg)
+	if t.parent != nil {
+		t.parent.fail(false, msg)
+	}
 	if now {
 		panic(t.failed)
 	}
